@@ -39,7 +39,8 @@ REQUIRED = ["objects", "layout_compared", "roundtrips", "table_dispatch",
             "objects_compared_before_and_after_encoding",
             "nx_action_bodies_compared", "nx_message_bodies_compared",
             "nxm_numbers_compared", "decoded_as_last_message_in_buffer",
-            "stats_of_unknown_types", "stats_replies_with_empty_lists"]
+            "stats_of_unknown_types", "stats_replies_with_empty_lists",
+            "decoded_after_a_failed_decode", "encoded_after_a_failed_encode"]
 TIMEOUT = {"quick": 900, "thorough": 7200}
 
 # wildcard bit constants (OpenFlow 1.0 spec)
@@ -227,6 +228,7 @@ def check_message (ctx, m, rng):
   ctx.rep.count("roundtrips")
   from pvm.checks import c01_nx
   c01_nx.table_decode(ctx, cname, m, b, rng)
+  c01_nx.after_a_failure(ctx, cname, m, b, rng)
   # objects decoded earlier are still what they were (no state shared between
   # instances of a message class, e.g. through a class-level list)
   old = _earlier.get(cname)
